@@ -12,6 +12,7 @@ CONSTANTS
 CONSTRAINT DepthBound
 VIEW vw
 INVARIANT TypeOK
+INVARIANT DirtyOnlyInRW
 INVARIANT ReopenEqualsLive
 INVARIANT LinksToNodes
 INVARIANT OneParent
@@ -22,4 +23,5 @@ INVARIANT RegistryMatchesMemory
 INVARIANT NoOrphansWhenClosed
 PROPERTY Footprint
 PROPERTY FrozenFile
+PROPERTY OptStaysStripped
 CHECK_DEADLOCK FALSE
